@@ -78,9 +78,58 @@ def gen_function(rng, fid, role, avail, phase_ctx, opts, later=()):
         spec['falsy'] = True
     if form == 'callable_object' and rng.chance(0.25):
         spec['wrapped'] = True          # carries __wrapped__ pointing at a function with another signature
+    if form == 'callable_object' and rng.chance(0.25):
+        spec['descriptor'] = True       # its class also defines __get__ (a class-based decorator usable on methods)
     if role == 'mw' and rng.chance(0.3):
         spec['next_style'] = 'pos'      # hands its provided values to next() positionally
     return spec
+
+
+# perfectly legal names for resources, URL bindings and provided values - and typical names of locals, helpers and
+# environment entries in generated or framework code
+ODD_NAMES = ['resp', 'endpoint', 'render', 'funcs', 'BaseResponse', 'Response', 'ret', 'result', 'response', 'func', 'inner', 'env', 'code',
+             'process_request', 'route', 'app', 'args', 'kwargs', 'params', 'name', 'type', 'id', 'exc', 'value', 'key', 'mw', 'f', 'next_', '_next', 'nxt', 'next2', 'context_', 'request_', '_route_', 'self_']
+
+
+def rename_everywhere(cfg, old, new):
+    def fix_list(lst):
+        for i, x in enumerate(lst):
+            if x == old:
+                lst[i] = new
+
+    def fix_func(f):
+        if f:
+            for p in f['params']:
+                if p[0] == old:
+                    p[0] = new
+
+    def fix_mw(m):
+        for a in ('provides', 'endpoint_provides', 'render_provides'):
+            fix_list(m[a])
+        for ph in ('request', 'endpoint', 'render'):
+            fix_func(m.get(ph))
+    for lv in cfg['levels']:
+        fix_list(lv['resources'])
+        if lv.get('prefix_bindings'):
+            fix_list(lv['prefix_bindings'])
+        for m in lv['mws']:
+            fix_mw(m)
+    r = cfg['route']
+    fix_list(r['bindings'])
+    fix_list(r['resources'])
+    fix_func(r['endpoint'])
+    fix_func(r.get('render'))
+    for m in r['mws']:
+        fix_mw(m)
+    for sib in r.get('siblings') or []:
+        for m in sib.get('mws') or []:
+            fix_mw(m)
+    for d in r.get('decoys') or []:
+        if d.get('name') == old:
+            d['name'] = new
+    if cfg.get('none_resources'):
+        cfg['none_resources'] = [new if x == old else x for x in cfg['none_resources']]
+    cfg['renamed'] = [old, new]
 
 
 def gen_config(rng, opts=None):
@@ -200,7 +249,16 @@ def gen_config(rng, opts=None):
              'methods': ['GET'] if rng.chance(0.5) else None}
     if bindings and opts.get('binding_ops', True) and rng.chance(0.3):
         route['last_op'] = rng.pick(['?', '?', '*', '+'])      # the last URL binding is optional / takes several segments
+    if bindings and opts.get('binding_ops', True) and rng.chance(0.25):
+        route['last_type'] = 'int'                             # ... and / or typed: values arrive converted
     cfg = {'levels': levels, 'route': route, 'beh': {}, 'build_via_add': rng.chance(0.3)}
+    all_res = sorted(set(route_res) | set(x for l in level_res for x in l))
+    if all_res and opts.get('none_resources', True) and rng.chance(0.15):
+        cfg['none_resources'] = [rng.pick(all_res)]         # a resource registered with the value None
+    if opts.get('odd_names', True) and rng.chance(0.25):
+        # one of the injectable names is replaced throughout by a name that code generators like to use for themselves
+        old = rng.pick(NAMES)
+        rename_everywhere(cfg, old, rng.pick(ODD_NAMES))
     # two instances of one *non-unique* middleware type on two different levels: both stay, each with its own provides
     by_where = {}
     for m in mws:
@@ -217,6 +275,20 @@ def gen_config(rng, opts=None):
                 if m['type'] == ma['type']:
                     m['unique'] = False
         cfg['nonunique_pair'] = [ma['mid'], mb['mid']]
+    if opts.get('unique_dup', True) and len(filled) >= 2 and 'nonunique_pair' not in cfg and rng.chance(0.15):
+        # two instances of one *unique* type on two levels: the outer one stays, the inner one is dropped - so it is the outer
+        # instance's functions that run and its values that arrive
+        ia, ib = sorted(rng.sample(range(len(all_lists)), 2))
+        if all_lists[ia] and all_lists[ib]:
+            ma, mb = rng.pick(all_lists[ia]), rng.pick(all_lists[ib])
+            if not any(m['type'] == ma['type'] and m is not ma for lst in all_lists for m in lst) and ma.get('unique', True) and ma.get('reorderable', True):
+                mb['type'] = ma['type']
+                mb['unique'] = mb['reorderable'] = True
+                # the dropped instance offers the same names as the kept one (as instances of one class normally do), or none
+                same = rng.chance(0.6)
+                for a in ('provides', 'endpoint_provides', 'render_provides'):
+                    mb[a] = list(ma[a]) if same else []
+                cfg['unique_dup'] = [ma['mid'], mb['mid']]
     if render is not None and rng.chance(0.25):
         route['render_via_factory'] = True      # render argument is a template name, the function comes from a render factory
     used = set(NAMES) & (set(bindings) | set(route_res) | set(x for l in level_res for x in l) |
